@@ -58,6 +58,106 @@ CHECKS = {
                 ref='§3 C05'),
 }
 
+CHECKS.update({
+    'C04': dict(engine='SEQ', tech='explicit-state BFS of the implementation '
+                'under a virtual clock against a reference model + exhaustive '
+                'population sweep',
+                text='Every history up to the stated depth over expiry-centred '
+                'alphabets (ttl None/0/1/2/-1/+-1e10, set/add/touch/incr/get/'
+                'contains/pop/delete/peekitem/push/pull/peek/expire/cull, '
+                'every cull_limit) is executed on the real Cache under a '
+                'virtual clock and compared with the reference; expire(), '
+                'cull() and lazily culling writes are checked on every '
+                'population 0..210 of expired items (shared, split and '
+                'distinct expiry times).',
+                note='clock constant inside one call', ref='§3 C04'),
+    'C09': dict(engine='SEQ', tech='explicit-state BFS of the implementation '
+                'at its size limit against a relational reference of '
+                'admissible victims',
+                text='From four start states (empty, near the limit with an '
+                'expired item, early counter, uneven reads) every history up '
+                'to the stated depth of writes/reads/incr/touch/cull over '
+                'file-backed values of two sizes is executed for each policy '
+                'x cull_limit in {0,1,2,10}; victims must be admissible '
+                '(only at the limit, at most cull_limit, expired first, no '
+                'survivor strictly older under the policy, none under policy '
+                'none) and cull() must end at or below the limit with the '
+                'right count.',
+                note='volume = pages + value files; when SQLite changes the '
+                'page count in a step both decisions are admissible', ref='§3 C09'),
+    'C10': dict(engine='SEQ+SCHED', tech='explicit-state BFS against '
+                'per-prefix reference deques + stateless exploration of all '
+                'producer/consumer interleavings with a linearizability '
+                'oracle',
+                text='Every push/pull/peek history up to the stated depth over '
+                'both sides, prefixes None/a/ab/a-5/b, ordinary keys and '
+                'expiring items is compared with reference deques; for '
+                'producer/consumer/peeker programs every interleaving (2 '
+                'clients) or every schedule within the preemption bound (3 '
+                'clients) must be linearizable, which implies exactly-once '
+                'delivery and per-producer order.',
+                note='free-running processes replaced by exhaustive small '
+                'programs', ref='§3 C10'),
+    'C11': dict(engine='SEQ+SCHED', tech='explicit-state BFS differential '
+                'against collections.deque + stateless exploration of '
+                'producer/consumer interleavings',
+                text='From 8 start states (maxlen None/0/1/2/3, incl. '
+                'FanoutCache.deque and DjangoCache.deque) every history up to '
+                'the stated depth over an ~85-operation alphabet (all '
+                'indices -4..3, rotate -3..4, comparisons, reopen, copy, '
+                'pickle, size_limit=0) must give the same result, exception '
+                'class, contents and maxlen as collections.deque; concurrent '
+                'append/pop programs must be linearizable.',
+                note='maxlen is not persisted: reopen passes the same maxlen',
+                ref='§3 C11'),
+    'C12': dict(engine='SEQ+SCHED', tech='explicit-state BFS differential '
+                'against OrderedDict + stateless exploration of all '
+                'interleavings with a strict linearizability oracle',
+                text='From 6 start states every history up to the stated '
+                'depth over a ~60-operation mapping alphabet (native and '
+                'composite keys, inline and file-backed values, views, '
+                'equality, failing update, reopen, unpickle) must match '
+                'OrderedDict; lookups/replacements/setdefault/popitem by 2-3 '
+                'clients must be linearizable with no tolerated miss.',
+                note='', ref='§3 C12'),
+    'C15': dict(engine='SCHED', tech='stateless exploration of all '
+                'interleavings of contender threads; invariant on an '
+                'independent witness counter',
+                text='For Lock, RLock (incl. nested and wrong-party release), '
+                'BoundedSemaphore(1..2, 3 in thorough) and barrier on Cache '
+                'and FanoutCache, with shared and own Cache objects, every '
+                'interleaving of 2 contenders (and bounded schedules of 3-4) '
+                'is executed; the number of holders recorded by the harness '
+                'never exceeds the capacity, nobody deadlocks, releases of '
+                'what is not held are refused.',
+                note='time.sleep in spin loops yields to the scheduler; spin '
+                'loops are assumed stateless across iterations; processes '
+                'represented by separate Cache objects', ref='§3 C15'),
+    'C19': dict(engine='SEQ', tech='explicit-state BFS differential against '
+                'Django\'s reference backend (LocMemCache) under one virtual '
+                'clock',
+                text='Every history up to the stated depth over a 50-operation '
+                'BaseCache alphabet (keys x versions x timeout classes) is '
+                'executed on DjangoCache and LocMemCache for several '
+                'TIMEOUT/KEY_PREFIX/VERSION/SHARDS parameter sets; contract-'
+                'defined return values and the visible state for every key '
+                'and version must agree.',
+                note='return values the contract leaves open (set, clear, '
+                'delete of an expired entry) are not compared', ref='§3 C19'),
+    'C20': dict(engine='SCHED', tech='stateless exploration of all '
+                'interleavings (virtual time for throttle) with '
+                'linearizability / rate-window oracles',
+                text='Averager: every interleaving of 2 clients (and bounded '
+                'schedules of 3) doing add/get/pop must be linearizable '
+                'against (total, count). Throttle: for 4 rates, 1-2 callers x '
+                '2-3 calls, arrival offsets {0,1/2,1} and up to two '
+                'spontaneous half ticks, every schedule is executed under a '
+                'virtual clock; every window of grant instants respects '
+                'count + rate x elapsed and every call is let through.',
+                note='virtual time advances only when every caller sleeps '
+                '(plus explicit ticks)', ref='§3 C20'),
+})
+
 ENGINES = [
     ('SEQ', 'mc/seq.py', 'explicit-state BFS over API histories executed on '
      'the real library, reference-model oracle, canonical-state dedup'),
@@ -116,7 +216,7 @@ def main():
         'engines': [
             {'name': n, 'path': p, 'kind_free_text': k,
              'serves_properties': [pid for pid in ids if pid in CHECKS
-                                   and CHECKS[pid]['engine'] == n]}
+                                   and n in CHECKS[pid]['engine']]}
             for n, p, k in ENGINES],
         'checks': checks,
         'not_applicable': na,
